@@ -247,7 +247,7 @@ class Check:
             return path
 
         if self.oracle_failures:
-            path = write_replay('failing-input', {'failures': self.oracle_failures[:10],
+            path = write_replay('failing-input', {'failures': self.oracle_failures[:80],
                                                   'how_to_replay': f'./check {self.pid} --replay <this file>'})
             violations.append(f'VIOLATION property={self.pid} replay={path}')
         elif self.proof['broken'] or self.tie['disagreements']:
